@@ -43,6 +43,20 @@ theorem ptent_get (n naggr : Nat) (id : Array Int) (i c : Nat) :
       · rintro ⟨_, h⟩; omega
   · rw [ptent_row_out n naggr id i hi, if_neg (fun h => hi h.1)]; rfl
 
+/-- `P_tent · 1`: one on aggregated rows, zero elsewhere -/
+theorem ptent_rowsum (n naggr : Nat) (id : Array Int) (i : Nat) (hi : i < n)
+    (hlt : id.getD i aggrRemoved < (naggr : Int)) :
+    ∑ c ∈ range naggr, (tentativeProlongation n naggr id : CRS K).get i c =
+      if id.getD i aggrRemoved ≥ 0 then 1 else 0 := by
+  simp only [ptent_get]
+  by_cases h0 : id.getD i aggrRemoved ≥ 0
+  · rw [if_pos h0, sum_eq_single_of_mem (id.getD i aggrRemoved).toNat (mem_range.2 (by omega))]
+    · rw [if_pos ⟨hi, by omega⟩]
+    · intro c _ hc; rw [if_neg]; rintro ⟨_, h⟩; exact hc (by omega)
+  · rw [if_neg h0]
+    apply sum_eq_zero
+    intro c _; rw [if_neg]; rintro ⟨_, h⟩; omega
+
 end
 end Coarsening
 end Amgcl
